@@ -10,13 +10,9 @@ use super::stream::{ArmKind, ArmRecord, Injected, LinkSnap, Monitor, RxClass, cl
 use crate::refcodec as rc;
 use crate::report::Report;
 
-pub fn batch_size(r: BatchRegime) -> i32 {
-    match r {
-        BatchRegime::LowActivity => 4,
-        BatchRegime::Normal => 16,
-        BatchRegime::HighLoad => 32,
-    }
-}
+/// C01: "held for at most one batch (32 datagrams)". The per-regime thresholds below that bound are an
+/// implementation choice the monitors must not assume (false alarm on a benign regime retune, DESIGN.md 9.7).
+pub const MAX_BATCH: i32 = 32;
 
 fn find<'a>(v: &'a [LinkSnap], id: u64) -> Option<&'a LinkSnap> {
     v.iter().find(|l| l.conn_id == id)
@@ -142,11 +138,14 @@ impl Monitor for DeliveryMon {
                 self.pending.entry(u).or_default().push_back(k);
                 // threshold rule: the link that just took a packet is below its regime threshold afterwards
                 if let (Some(pre), Some(post)) = (find(&rec.pre, u), find(&rec.post, u)) {
-                    let th = batch_size(pre.regime);
+                    // the property's bound is one batch of 32 datagrams, whatever the regime's own (smaller,
+                    // retunable) threshold is
+                    let th = MAX_BATCH;
                     if post.connected && post.queued >= th {
-                        rep.violation("C01.hold.threshold-not-flushed", format!("arm#{}: link {u:x} holds {} datagrams after a routing arm, regime threshold {th}", rec.no, post.queued));
+                        rep.violation("C01.hold.threshold-not-flushed", format!("arm#{}: link {u:x} holds {} datagrams after a routing arm (at most one batch of {th} may be held)", rec.no, post.queued));
                     }
-                    if pre.queued + 1 >= th && post.queued == 0 && post.connected {
+                    // coverage: a routing arm that emptied a queue of several datagrams = a size-triggered flush
+                    if pre.queued >= 1 && post.queued == 0 && post.connected {
                         rep.count(match pre.regime {
                             BatchRegime::LowActivity => "c01.flush.threshold.low_activity",
                             BatchRegime::Normal => "c01.flush.threshold.normal",
